@@ -137,4 +137,14 @@ static inline double *dense_copy(const double *first, const double *last, double
   if (has) dst[dense_g_copyk] = gv;
   return dst + n;
 }
+/* MatrixType m(rows, cols): uninitialised coefficients */
+static inline RealMatrix RealMatrix_ctor2(unsigned long r, unsigned long c)
+{
+  RealMatrix m;
+  __CPROVER_assert(r <= (unsigned long)DENSE_MAXDIM && c <= (unsigned long)DENSE_MAXDIM, "dense model: dimension within DENSE_MAXDIM");
+  m.rows = (long)r; m.cols = (long)c;
+  m.data = malloc(DENSE_BYTES(r));
+  __CPROVER_assume(m.data != (double *)0);   /* ASSUMED: allocation succeeds */
+  return m;
+}
 #endif
